@@ -870,9 +870,10 @@ static void convert_brace(Chunk *br)
                Chunk *other = br->Is(CT_VBRACE_CLOSE) ? br->GetPrev() : br->GetNext();
 
                if (  other->Is(CT_NEWLINE)
-                  && other->GetNlCount() == 1
                   && other->SafeToDeleteNl())
                {
+                  // the brace's own line is gone: what remains is one run of line breaks in one chunk
+                  tmp->SetNlCount(tmp->GetNlCount() + other->GetNlCount() - 1);
                   Chunk::Delete(other);
                }
             }
